@@ -9,6 +9,10 @@ import (
 
 func runtimeStack(buf []byte) int { return runtime.Stack(buf, true) }
 
+// minimiseWall bounds the wall-clock time spent on minimising one violation; the worker sets it to a
+// fraction of its own budget so that minimisation never eats the search.
+var minimiseWall = 40 * time.Second
+
 // minimise shrinks a recorded tape while the same violation clause still fails: truncate lanes
 // (the replay default past the end is 0 = no fault / no preemption / first alternative), zero
 // blocks, delete blocks, lower single values. Every candidate is one fresh simulated run.
@@ -17,7 +21,7 @@ func minimise(t *testing.T, p Property, rec [nLanes][]uint32, v Violation, opt R
 	if raceBuild {
 		budgetRuns = 300
 	}
-	deadline := time.Now().Add(40 * time.Second)
+	deadline := time.Now().Add(minimiseWall)
 	runs := 0
 	best := rec
 	bestV := v
